@@ -231,6 +231,52 @@ example : ∃ s, run { demuxOn := fun e => [e.id] } init
     (step { demuxOn := fun e => [e.id] } s (.connWriteFail 0)).isSome := by
   refine ⟨_, rfl, ?_⟩; decide
 
+/-- **`Cancel` closes each `done` channel at most once.**  In a reachable state of the repaired
+code a `Cancel(k)` either finds no entry and changes nothing at all, or finds the one registered
+object of the key, whose `done` is still open (so the `close` cannot be a second close — a Go
+panic), and touches no other object.  (The lookup, the `close` and the `delete` are one critical
+section; an implementation that lets go of the lock between them loses exactly this.) -/
+theorem cancel_closes_open_done_only {cfg : Cfg} {s s' : State} (hr : Reachable cfg s) {k : Bytes}
+    (hs : step cfg s (.cancelKey k) = some s') :
+    (mget s.table k = none → s' = s) ∧
+    (∀ c, mget s.table k = some c →
+      (∃ conn, s.conns[c]? = some conn ∧ conn.done = false ∧ conn.closed = false) ∧
+      (∀ c', c' ≠ c → s'.conns[c']? = s.conns[c']?)) := by
+  obtain ⟨_, h2, _⟩ := inv_reachable hr
+  unfold step at hs
+  split at hs
+  · contradiction
+  · refine ⟨?_, ?_⟩
+    · intro hk; simp only [hk, Option.some.injEq] at hs; exact hs.symm
+    · intro c hk
+      obtain ⟨conn, hc, _, hd, hcl⟩ := h2 k c hk
+      refine ⟨⟨conn, hc, hd, hcl⟩, ?_⟩
+      intro c' hne
+      simp only [hk, hc, Option.some.injEq] at hs
+      subst hs
+      simp [Ne.symm hne]
+
+/-- a second `Cancel` of the same key, with nothing looked up for the key in between, is a no-op -/
+theorem cancel_twice_is_cancel_once {cfg : Cfg} (hcfg : cfg.cancelUsesDone = true) {s s' s'' : State}
+    (hr : Reachable cfg s) {k : Bytes}
+    (h1 : step cfg s (.cancelKey k) = some s') (h2 : step cfg s' (.cancelKey k) = some s'') :
+    s'' = s' := by
+  have hr' := reachable_step hr h1
+  have hnone : mget s'.table k = none := by
+    cases hk : mget s.table k with
+    | none => rw [(cancel_closes_open_done_only hr h1).1 hk]; exact hk
+    | some c => exact (cancelKey_sets_done hcfg hr hk h1).2
+  exact (cancel_closes_open_done_only hr' h2).1 hnone
+
+/-- non-vacuity: two keys live, one cancelled twice: the second `Cancel` changes nothing and the
+other key's object is untouched -/
+example : ∃ s s', run { demuxOn := fun e => [e.id] } init
+      [.runRead { id := 1 }, .runLookup, .connReadStart 0, .runHandoff,
+       .runRead { id := 2 }, .runLookup, .cancelKey [1]] = some s ∧
+    step { demuxOn := fun e => [e.id] } s (.cancelKey [1]) = some s' ∧ s' = s ∧
+    s.conns.map (·.done) = [true, false] := by
+  refine ⟨_, _, rfl, rfl, ?_⟩; decide
+
 /-- negative witness for `cancelUsesDone` (1): `Run` is in the hand-off when `Cancel` closes
 `conn.r`: send on closed channel, the process dies -/
 theorem bad_cancelUsesDone_run :
